@@ -97,6 +97,7 @@ fn v2_loop<'a>(
             ==> r is Err, // [V2.post.bad_regex_is_err]
         // an error never comes with a silently changed report
         forall|k2: PathBuf| k2 != *file_path && #[trigger] old(violations)@.contains_key(k2) ==> final(violations)@.contains_key(k2) && final(violations)@[k2] == old(violations)@[k2], // [V2.post.other_files_untouched]
+        forall|k2: PathBuf| k2 != *file_path && #[trigger] final(violations)@.contains_key(k2) ==> old(violations)@.contains_key(k2), // [V2.post.no_new_files]
         r is Err ==> final(violations)@ == old(violations)@, // [V2.post.err_leaves_report]
 //@tail
     proof {
@@ -133,6 +134,7 @@ fn v2_loop<'a>(
                 && #[trigger] key_range_ok(v, block_with_context.block, re, content_of(block_with_context.block, file_blocks.file_content@), i)
                 && v.code@ == "keep-unique"@,
             forall|k2: PathBuf| k2 != *file_path && #[trigger] old(violations)@.contains_key(k2) ==> violations@.contains_key(k2) && violations@[k2] == old(violations)@[k2],
+            forall|k2: PathBuf| k2 != *file_path && #[trigger] violations@.contains_key(k2) ==> old(violations)@.contains_key(k2),
 //@edit rule=ghost before=<<let mut seen>>
     let ghost keys = keys_of(re, content_of(block_with_context.block, file_blocks.file_content@));
 //@macro rule=E1 name=anyhow to=<<anyhow::verif_err()>>
